@@ -21,8 +21,10 @@ is reported as a new violation.
 """
 import asyncio
 import collections
+import json
 import logging
 import struct
+from pathlib import Path
 
 ID = "C16"
 LEAN_MODULES = ["Ebv.Props.C16"]
@@ -415,8 +417,8 @@ def sdo_requests(sim):
     return res
 
 
-def oracle(ctx, case, sim, srv, out, attributed=True):
-    """the property text on the implementation's observable behaviour.
+def oracle(require, case, sim, srv, out, attributed=True):
+    """the property text on the implementation's observable behaviour (`require` = ctx.require or a buffer).
     `attributed`: the implementation showed exactly the recorded defect behaviour of its class"""
     cls = classify(case) if attributed else None
     obs = show(sim.trace, out)
@@ -424,19 +426,19 @@ def oracle(ctx, case, sim, srv, out, attributed=True):
     ok = True
     for m in sim.trace:
         if m[0] == "w":
-            ok &= ctx.require(len(m) // 2 <= case["out"], "a message does not fit the receive mailbox", case, obs, cls)
+            ok &= require(len(m) // 2 <= case["out"], "a message does not fit the receive mailbox", case, obs, cls)
     for rs in sim.responses:
         for m in rs:
-            ok &= ctx.require(len(m) <= case["in"], "a response does not fit the send mailbox", case, obs, None)
+            ok &= require(len(m) <= case["in"], "a response does not fit the send mailbox", case, obs, None)
     segs = [t for ccs, t in sdo_requests(sim) if ccs in (0, 3)]
-    ok &= ctx.require(segs == [i & 1 for i in range(len(segs))], "segment toggles do not alternate from 0", case, obs, cls)
+    ok &= require(segs == [i & 1 for i in range(len(segs))], "segment toggles do not alternate from 0", case, obs, cls)
     if case["kind"] == "read":
-        ok &= ctx.require(out == "ok:" + val.hex(), "sdo_read did not return the object's bytes", case, obs, cls)
+        ok &= require(out == "ok:" + val.hex(), "sdo_read did not return the object's bytes", case, obs, cls)
     else:
         stored = srv.find(*key_of(case))[4]
-        ok &= ctx.require(stored == val, "the object does not hold the written bytes", case,
-                          obs + " | obj:" + stored.hex(), cls)
-        ok &= ctx.require(out == "ok:", "sdo_write did not return although nothing went wrong on the bus", case, obs, cls)
+        ok &= require(stored == val, "the object does not hold the written bytes", case,
+                      obs + " | obj:" + stored.hex(), cls)
+        ok &= require(out == "ok:", "sdo_write did not return although nothing went wrong on the bus", case, obs, cls)
     return ok
 
 
@@ -517,6 +519,30 @@ def gen_sys(ctx):
                     r = rng.random()
                     if n <= 12 or r < ctx.n(0.25, 1.0):
                         cases.append(sys_case(rng, kind, out_sz, in_sz, sub, n, rng.choice(["delay", "mail", "mail", "drain"])))
+    return cases
+
+
+def gen_working(ctx):
+    """the modes the code gets right, with everything else varied: index, subindex, counter, sizes, schedules"""
+    rng = ctx.rng
+    cases = []
+    for _ in range(ctx.n(1500, 40000)):
+        kind = rng.choice(["read", "read", "write"])
+        out_sz, in_sz = rng.choice(SIZES), rng.choice(SIZES)
+        if kind == "read":
+            sub = rng.choice([None, None, 0, 1, 2, rng.randrange(0, 256)])
+            n = rng.choice([0, 1, 2, 3, 4, 5, 6, in_sz - 17, in_sz - 16, rng.randrange(0, in_sz - 15)])
+            style = rng.choice(["plain", "delay", "mail", "mail", "drain"])
+        else:
+            sub = rng.choice([0, 1, 2, rng.randrange(0, 256)])
+            n = rng.randrange(1, 5)
+            style = rng.choice(["plain", "delay", "delay", "drain1"])
+        c = sys_case(rng, kind, out_sz, in_sz, sub, n, style if style != "drain1" else "delay")
+        c["sub"] = sub
+        c["index"] = rng.choice([INDEX, 0x1c12, 0xffff, 0, rng.randrange(0, 0x10000)])
+        if style == "drain1":
+            c["sched"] = [{"full": True, "pre": [unrelated(rng, in_sz).hex()], "delay": rng.randrange(0, 3)}]
+        cases.append(c)
     return cases
 
 
@@ -669,12 +695,30 @@ def sys_line(case, sim, srv, out):
     return show(sim.trace, out) + " | obj:" + srv.find(*key_of(case))[4].hex()
 
 
+def drive_chunks(ctx, lines, parts=6):
+    """ctx.drive on contiguous chunks, side by side (the driver is a one-line-in, one-line-out filter)"""
+    import concurrent.futures
+    size = max(1, -(-len(lines) // parts))
+    chunks = [lines[i:i + size] for i in range(0, len(lines), size)]
+    with concurrent.futures.ThreadPoolExecutor(max_workers=parts) as ex:
+        outs = list(ex.map(lambda ch: ctx.drive(DRIVER, ch, "sdo"), chunks))
+    if any(o is None for o in outs):
+        return None
+    return [l for o in outs for l in o]
+
+
+def known_witnesses():
+    f = Path(__file__).resolve().parents[3] / "findings" / "C16.json"
+    if not f.exists():
+        return []
+    return [e["witness"] for e in json.loads(f.read_text()) if e.get("property") == ID]
+
+
 def run(ctx):
     rng = ctx.rng
     lines, checks = [], []          # driver input lines; (what, case, impl_out, oracle-args or None)
-    for f in findings_witnesses():
-        pass
-    syscases = gen_sys(ctx)
+    witnesses = known_witnesses()
+    syscases = [{k: v for k, v in w.items() if k != "expect"} for w in witnesses] + gen_sys(ctx) + gen_working(ctx)
     for c in syscases:
         sim, srv, out = run_sys(c)
         ctx.case(c, nontrivial=bool(sim.requests) and bool(sim.received),
@@ -691,7 +735,8 @@ def run(ctx):
     for _ in range(ctx.n(2500, 60000)):
         c = gen_script(rng)
         sim, out = run_script(c)
-        ctx.case(c, nontrivial=any(t[0] == "w" for t in sim.trace) and bool(sim.received), kind="script:" + out.split(":")[0])
+        ns = sum(1 for t in sim.trace if t[0] == "w")
+        ctx.case(c, nontrivial=ns > 0 and bool(sim.received), kind=f"script:{c['kind']}:{out.split(':')[0]}:{min(ns, 3)}msg")
         lines.append(c)
         checks.append(("master on a scripted mail list", c, show(sim.trace, out), None))
     for _ in range(ctx.n(1500, 40000)):
@@ -699,19 +744,36 @@ def run(ctx):
         ctx.case(c, nontrivial=True, kind="server")
         lines.append(c)
         checks.append(("python server vs SdoServer", c, run_server(c), None))
-    model = ctx.drive(DRIVER, lines, "sdo")
+    model = drive_chunks(ctx, lines)
+    found = []                       # oracle failures, buffered: (cls, what, case, observed)
+
+    def buffer(cond, what, case, observed=None, cls=None):
+        if not cond:
+            found.append((cls, what, case, observed))
+        return bool(cond)
+
     for i, (what, c, impl, orc) in enumerate(checks):
-        same = True
+        same = model is not None
         if model is not None:
             same = ctx.agree(what, c, impl, model[i])
-            if same and orc is not None:      # the twin lines of a composed case must agree as well
-                same = impl.rsplit(" | obj:", 1)[0] == model[i + 1]
+            if orc is not None:      # the scripted twin of a composed case must agree as well
+                same = same and show(orc[0].trace, orc[2]) == model[i + 1]
         if orc is not None:
-            oracle(ctx, c, *orc, attributed=same and model is not None)
-
-
-def findings_witnesses():
-    return []
+            # a failure is attributed to its class only when the code showed exactly the modelled defect
+            oracle(buffer, c, *orc, attributed=same)
+    if model is not None:
+        for w in witnesses:           # the recorded defect behaviour is what the model says today
+            i = next(k for k, ch in enumerate(checks) if ch[1] == {k2: v for k2, v in w.items() if k2 != "expect"})
+            ctx.agree("recorded behaviour of a known finding vs model", w, w.get("expect"), model[i])
+    # ctx keeps the first 50 failures only: report the unattributed ones first, then a few per known class
+    found.sort(key=lambda f: f[0] is not None)
+    per = collections.Counter()
+    for cls, what, case, observed in found:
+        per[cls] += 1
+        if cls is None or per[cls] <= 4:
+            ctx.require(False, what, case, observed, cls)
+        else:
+            ctx.stats["oracle-fail:" + cls] += 1
 
 
 def replay(ctx, case):
@@ -723,5 +785,5 @@ def replay(ctx, case):
     sim, srv, out = run_sys(case)
     line = sys_line(case, sim, srv, out)
     # a witness of a known finding records the defect behaviour; anything else inside the class is a new failure
-    oracle(ctx, case, sim, srv, out, attributed=("expect" not in case or case["expect"] == line))
+    oracle(ctx.require, case, sim, srv, out, attributed=("expect" not in case or case["expect"] == line))
     return {"trace": line, "class": classify(case)}
